@@ -467,11 +467,11 @@ class TrenchWriter(Writer):
         with PGMCompiler(**main_param) as G:
             G.farcall_list(farcall_list)
 
-        if verbose:
-            _tc_fab_time = 0.0
-            for col in self.obj_list:
-                _tc_fab_time += col.fabrication_time + 10
+        _tc_fab_time = 0.0
+        for col in self.obj_list:
+            _tc_fab_time += col.fabrication_time + 10
 
+        if verbose:
             print('=' * 79)
             print('G-code compilation completed.')
             print(
@@ -480,7 +480,7 @@ class TrenchWriter(Writer):
             )
             print('=' * 79, '\n')
 
-            self._fabtime = _tc_fab_time
+        self._fabtime = _tc_fab_time
 
     def export_array2d(
         self,
@@ -1207,7 +1207,7 @@ class WaveguideWriter(Writer):
                 time.strftime('%H:%M:%S', time.gmtime(_wg_fab_time)),
             )
             print('=' * 79, '\n')
-            self._fabtime = _wg_fab_time
+        self._fabtime = _wg_fab_time
         self._instructions.clear()
 
     def _plot2d_wg(
@@ -1519,7 +1519,7 @@ class NasuWriter(Writer):
                 time.strftime('%H:%M:%S', time.gmtime(_nwg_fab_time)),
             )
             print('=' * 79, '\n')
-            self._fabtime = _nwg_fab_time
+        self._fabtime = _nwg_fab_time
         self._instructions.clear()
 
     def _plot2d_nwg(
